@@ -7,8 +7,8 @@
      id    identity of the Go object (pointer identity; "replaced pointers" keep the id),
      name  the object's local ID (an atom; AbsID = the path of names from the root of the CURRENT graph,
            exactly what Object.AbsID()/AbsIDArray() compute by walking Parent),
-     kind  near class (Some 0: top/bottom-center, Some 1: center-left/right, Some 2: corners) and the
-           special diagram type (grid / sequence / none),
+     kind  near class (Some 0: top/bottom-center, Some 1: center-left/right, Some 2: corners) of the near KEY,
+           the key itself as a name atom, and the special diagram type (grid / sequence / none),
      kids  ChildrenArray, in order.
    A graph = root level, root ChildrenArray (the forest), g.Objects (ids, in order), g.Edges (in order).
    Un-modelled components are Section variables: [engine] (core layout = dagre/ELK/…, d2grid.Layout,
@@ -21,7 +21,9 @@ Inductive dtype := DPlain | DGrid | DSeq.
 Definition dtype_eqb (a b : dtype) : bool :=
   match a, b with DPlain, DPlain | DGrid, DGrid | DSeq, DSeq => true | _, _ => false end.
 
-Record kind := mkKind { k_near : option N; k_dt : dtype }.
+(* k_near: Some class when the object's `near` key is (the name of) one of the 8 near constants, k_nkey: that key as a
+   name atom (0 when there is none).  Whether such an object IS a constant near is decided during layout: see is_const. *)
+Record kind := mkKind { k_near : option N; k_nkey : N; k_dt : dtype }.
 Inductive tree := T (id name : N) (k : kind) (kids : list tree).
 Definition t_id (t : tree) := match t with T i _ _ _ => i end.
 Definition t_name (t : tree) := match t with T _ n _ _ => n end.
@@ -65,7 +67,7 @@ Definition upd_f (i : N) (f : tree -> tree) (F : list tree) : list tree := map (
 Definition clear_kids (t : tree) : tree := match t with T j n k _ => T j n k [] end.
 Definition add_kids (K : list tree) (t : tree) : tree := match t with T j n k ks => T j n k (ks ++ K) end.
 Definition set_near (v : option N) (t : tree) : tree :=
-  match t with T j n k ks => T j n (mkKind v (k_dt k)) ks end.
+  match t with T j n k ks => T j n (mkKind v (k_nkey k) (k_dt k)) ks end.
 
 (* container.Parent.RemoveChild(container): drop the child with identity i from its parent's array *)
 Fixpoint rem_t (i : N) (t : tree) : tree :=
@@ -240,9 +242,13 @@ Inductive call := CEngine (dt : dtype) (g : graph) | CRouter (ids : list N).
 
 Definition default_info := mkInfo false DPlain.
 Definition is_default (gi : info) : bool := negb (i_near gi) && dtype_eqb (i_dt gi) DPlain.
+(* Object.IsConstantNear(): NearKey != nil, the key is a near constant, and -- evaluated when it is asked, on the
+   graph the object is in at that moment -- the root has no child of that name *)
+Definition is_const (g : graph) (c : tree) : bool :=
+  is_some (k_near (t_kind c)) && negb (existsb (fun t => N.eqb (t_name t) (k_nkey (t_kind c))) (g_roots g)).
 (* NestedGraphInfo *)
 Definition nested_info (g : graph) (c : tree) : info :=
-  mkInfo (Nat.eqb (g_level g) 0 && is_some (k_near (t_kind c))) (k_dt (t_kind c)).
+  mkInfo (Nat.eqb (g_level g) 0 && is_const g c) (k_dt (t_kind c)).
 Definition is_cell (inf : info) (g : graph) (c : tree) : bool :=
   dtype_eqb (i_dt inf) DGrid && negb (is_nil (t_kids c)) && mem (t_id c) (map t_id (g_roots g)).
 Definition set_roots (g : graph) (F : list tree) : graph := mkGraph (g_level g) F (g_objs g) (g_edges g).
@@ -385,7 +391,7 @@ Section Layout.
         end
     end.
 
-  Definition fuel_for (g : graph) : nat := 2 * length (g_objs g) + 2.
+  Definition fuel_for (g : graph) : nat := 3 * length (g_objs g) + 3.
   Definition layout (inf : info) (g : graph) : res (graph * list call) := layout_nested (fuel_for g) inf g.
 End Layout.
 
